@@ -135,11 +135,31 @@ impl Config {
                                     }
                                     yaml::Yaml::String(s) => {
                                         let mut it = s.split('/');
-                                        let ip =
-                                            it.next().unwrap().parse().map_err(|e| {
-                                                Error::InvalidConfig(format!("{}", e))
-                                            })?; /* TODO: remove unwrap */
-                                        let prefixlen = it.next().unwrap().parse().unwrap();
+                                        let ip = it
+                                            .next()
+                                            .ok_or_else(|| {
+                                                Error::InvalidConfig(format!(
+                                                    "Expected IP prefix, but '{}'",
+                                                    s
+                                                ))
+                                            })?
+                                            .parse()
+                                            .map_err(|e| Error::InvalidConfig(format!("{}", e)))?;
+                                        let prefixlen = it
+                                            .next()
+                                            .ok_or_else(|| {
+                                                Error::InvalidConfig(format!(
+                                                    "Expected IP prefix, but '{}'",
+                                                    s
+                                                ))
+                                            })?
+                                            .parse()
+                                            .map_err(|e| {
+                                                Error::InvalidConfig(format!(
+                                                    "Invalid prefix length in '{}': {}",
+                                                    s, e
+                                                ))
+                                            })?;
                                         prefix = Some(
                                             erbium_net::Ipv4Subnet::new(ip, prefixlen).map_err(
                                                 |e| Error::InvalidConfig(format!("{}", e)),
